@@ -141,7 +141,8 @@ def run_flow(sc, root, helper):
             "authz_order": sc["authz_order"], "challenge_order": sc["challenge_order"]}
     cert = {"name": "crt", "identifiers": sc["ids"], "key_type": "ecdsa_p256"}
     acct = {"name": "acc1", "contacts": [{"mailto": "a@example.org"}], "key_type": sc["key_type"]}
-    exits = {sc["fail_hook"]: 1} if sc["fail_hook"] else None
+    # a failing challenge hook exits non-zero or (every other scenario) is killed by a signal: no exit status at all
+    exits = {sc["fail_hook"]: (-9 if sc["idx"] % 2 else 1)} if sc["fail_hook"] else None
     ca = mockca.MockCA(helper, opts=opts)
     ca.start()
     try:
